@@ -1,8 +1,12 @@
 package props
 
 import (
+	"context"
+	"errors"
 	"fmt"
 	"strings"
+
+	"github.com/theory/sqljson/path/exec"
 
 	"verif/internal/h"
 )
@@ -12,12 +16,12 @@ func init() {
 		ID:    "C08",
 		Level: "exploration",
 		Rule: "random (path, document, options) triples (paths with predicates/filters before erroring steps, erroring steps inside subscripts and method arguments, each non-suppressible error kind); " +
-			"every entry point is executed without and with WithSilent on identical inputs and the stated relations are asserted; silent Query items are compared with the reference model's items-before-failure; " +
+			"every entry point is executed without and with WithSilent on identical inputs and the stated relations are asserted; silent Query items are compared with the reference model's items-before-failure; a cancellation injected at a step of the silent run (the context carrying a caller-supplied cause that wraps ErrVerbose) must come back as a cancellation; " +
 			"H1/H2 hook invariants (verbose flag restored at every step exit and call end) are asserted on every execution. Non-trivial: the verbose Query is not an empty error-free result; distinct by (path, document, decoding, tz, zone)",
 		Run:    runC08,
 		Replay: replayC08,
 		MinExercised: map[string]int64{"silent-returns-verbose": 10000, "ok-differs": 3000, "soft.silent-errs": 1000, "soft.items-before-failure": 500,
-			"soft.exists-null": 500, "hard-changed": 200, "hard.closed-list": 200, "verbose-leak": 10000},
+			"soft.exists-null": 500, "hard.cancel": 5000, "hard-changed": 200, "hard.closed-list": 200, "verbose-leak": 10000},
 		Assumptions: []string{
 			"the closed list of non-suppressible errors is the one in the property statement (unknown variable, time-zone-requiring casts/comparisons, datetime template, decimal precision/scale, cancellation)",
 			"paths that expand object members get single-member objects so that the verbose and the silent run are comparable (member order is open)",
@@ -122,6 +126,26 @@ func checkC08(c *h.Ctx, ec *ExecCase) {
 			c.Violate("silent-returns-verbose", feat(), "WithSilent returned a suppressible error: "+s.ErrText(), cs)
 		} else {
 			c.Held("silent-returns-verbose")
+		}
+		// 1b. a cancellation is returned as such under WithSilent too, at
+		// whichever step it arrives and whatever cause the caller attached to
+		// the context (context.Cause reports an error wrapping ErrVerbose here)
+		if s.Steps > 0 && (entry == "query" || entry == h.Entries[1+len(ec.Text)%4]) {
+			k := (len(ec.Text)*31 + len(ec.Doc)*17 + len(entry)) % (s.Steps + 1)
+			m := &h.CallMon{CancelAt: k, Cause: context.Canceled}
+			o := h.CallMonitored(entry, ec.P, doc, so, m)
+			c.Eval(1)
+			switch {
+			case o.Class == h.Panic:
+			case o.Err == nil || !errors.Is(o.Err, exec.ErrExecution) || !errors.Is(o.Err, context.Canceled) || errors.Is(o.Err, exec.ErrVerbose):
+				ccs := cs
+				ccs.Silent = true
+				ccs.Entry = entry
+				ccs.Extra = map[string]string{"cancel-at-step": fmt.Sprint(k)}
+				c.Violate("hard.cancel", feat("at", fmt.Sprint(k > 0)), fmt.Sprintf("cancelled at step %d of %d under WithSilent: %s; want an error wrapping ErrExecution and context.Canceled, not ErrVerbose", k, s.Steps, o.Summary()), ccs)
+			default:
+				c.Held("hard.cancel")
+			}
 		}
 		kv := strings.Contains(ec.Text, "keyvalue")
 		switch v.Class {
